@@ -335,13 +335,15 @@ def scan_forbidden():
     return hits
 
 
-def coq_build(timeout=3000):
-    """incremental full .vo build of the whole development"""
-    if not os.path.exists(os.path.join(COQ, 'Makefile')):
-        subprocess.run([os.path.join(VERIF, 'setup.sh'), '--makefile-only'], check=True,
-                       capture_output=True)
-    p = subprocess.run(['timeout', str(timeout), 'make', '-C', COQ, f'-j{NCPU}'],
-                       capture_output=True, text=True)
+def coq_build(target=None, timeout=3000):
+    """incremental full .vo build (never -vos) of `target` (a path relative to coq/,
+    e.g. Properties/C13.vo) and everything it depends on; whole development if None"""
+    subprocess.run([os.path.join(VERIF, 'setup.sh'), '--makefile-only'], check=True,
+                   capture_output=True)
+    cmd = ['timeout', str(timeout), 'make', '-C', COQ, f'-j{NCPU}']
+    if target:
+        cmd.append(target)
+    p = subprocess.run(cmd, capture_output=True, text=True)
     return p.returncode == 0, (p.stdout + p.stderr)[-4000:]
 
 
@@ -357,7 +359,7 @@ def proof_obligations(pid):
     text = strip_comments(open(src).read())
     names = re.findall(r'Print\s+Assumptions\s+([\w\.\']+)\s*\.', text)
     res['obligations'] = len(names)
-    ok, log = coq_build()
+    ok, log = coq_build(f'Properties/{pid}.vo')
     if not ok:
         res['log'] = 'coq build failed: ' + log
         return res
